@@ -54,13 +54,20 @@ def run_part(report, prop, key, u, opts, tier):
     spellings = opts.get("spellings", [{}])
     pats, lsts = u["patterns"], u["listings"]
     rules, job_rules, seen_docs = [], [], set()
+    tlc_docs = matchpipe.unparse_by_tlc(pats, report)     # JasmSyntax!Unparse, per pattern and spelling
     ranges = [()] + [tuple(r) for r in u.get("ranges", [])] if "ranges" in u else [()]
     for pi, P in enumerate(pats):
         for (mfm, ofm) in flags:
             for sp in spellings:
                 for rng in ranges:
                     extra = {"valid_addr_range": {"min": rng[0], "max": rng[1]}} if rng else None
-                    text = render.dump_yaml(render.rule_doc(P, mfm, ofm, opt=sp, config_extra=extra))
+                    doc = render.rule_doc(P, mfm, ofm, opt=sp, config_extra=extra)
+                    key = "upper" if sp.get("upper_suffix") else "sib" if sp.get("times") == "sib" else "body"
+                    if doc["pattern"] != tlc_docs[pi][key]:
+                        raise MachineryError(f"render.py and JasmSyntax!Unparse disagree on {P}: "
+                                             f"{doc['pattern']} vs {tlc_docs[pi][key]}")
+                    doc["pattern"] = tlc_docs[pi][key]       # the document the real code reads is TLC's
+                    text = render.dump_yaml(doc)
                     if (pi, text) in seen_docs:
                         continue
                     seen_docs.add((pi, text))
